@@ -26,7 +26,8 @@
          every configuration, 0 < RandomizeWindow <= 2^29, any RandomizeScale; it never panics with the default scale), the FINDING
          C04_get_move_scale_panics (RandomizeScale > RandomizeWindow: rand.Int63n(0) panics, in the model and in the real engine), and
          C04_pv_replays_precise (the WHOLE reported variation replays legally, for precise configurations without a table, any value,
-         any cancellation point).  Whole-PV replay WITH a table stays tested only; SearchRand.v is not yet executed against the code.
+         any cancellation point).  Whole-PV replay WITH a table stays tested only.  SearchRand.v is executed against the real GetMove on every run (CASE RAND lines:
+         the values ai.rand draws are regenerated from Cfg.Seed and handed to the model).
    `_partial` = WHAT IS MISSING in (2)-(5) (all three points are closed by (4') for Analyze and by (9) for AnalyzeAll and the randomised
    GetMove):
      - the root-search model of LegalMove.v is abstract and NOT executed against ai/minimax.go (the executed search
